@@ -16,13 +16,26 @@ func init() {
 }
 
 func (c *Ctx) unmarshalTargetType(f *ssa.Function) types.Type {
+	return c.unmarshalTargetTypeD(f, 0)
+}
+
+// unmarshalTargetTypeD: the type json.Unmarshal decodes into in f; when f does not decode itself, in the module
+// helpers it calls (a decoding helper, possibly an instance of a generic one).
+func (c *Ctx) unmarshalTargetTypeD(f *ssa.Function, depth int) types.Type {
 	var out types.Type
-	if f == nil {
+	if f == nil || depth > 3 {
 		return nil
 	}
+	var callees []*ssa.Function
 	forEachInstr(f, func(in ssa.Instruction) {
 		cl, ok := in.(*ssa.Call)
-		if !ok || cl.Call.StaticCallee() == nil || cl.Call.StaticCallee().String() != "encoding/json.Unmarshal" {
+		if !ok || cl.Call.StaticCallee() == nil {
+			return
+		}
+		if cl.Call.StaticCallee().String() != "encoding/json.Unmarshal" {
+			if g := cl.Call.StaticCallee(); inModule(g) && g.Blocks != nil {
+				callees = append(callees, g)
+			}
 			return
 		}
 		if mi, isMI := cl.Call.Args[1].(*ssa.MakeInterface); isMI {
@@ -31,6 +44,17 @@ func (c *Ctx) unmarshalTargetType(f *ssa.Function) types.Type {
 			}
 		}
 	})
+	if out == nil {
+		var res types.Type
+		if f.Signature.Results().Len() > 0 {
+			res = derefT(f.Signature.Results().At(0).Type())
+		}
+		for _, g := range callees {
+			if t := c.unmarshalTargetTypeD(g, depth+1); t != nil && (out == nil || (res != nil && types.Identical(t, res))) {
+				out = t
+			}
+		}
+	}
 	return out
 }
 
